@@ -103,6 +103,19 @@ func vhDefLiteralMB() Rules {
 		"In": {{"Arrow", `→`, Pop()}, {"Ch", `(?s).`, nil}}}
 }
 
+// patterns that bring their own ^ in front of a top-level alternation
+func vhDefCaretAlt() Rules {
+	return Rules{
+		"Root": {{"K", `^a|b`, nil}, {"Open", `(<)`, Push("In")}, {"N", `1`, nil}},
+		"In":   {{"End", `^\1>|;`, Pop()}, {"T", `[a1]`, nil}},
+	}
+}
+
+// classes whose largest member lies in U+0080..U+00FF (two bytes in UTF-8, but "fits in a byte")
+func vhDefLatin1Class() Rules {
+	return Rules{"Root": {{"W", `[a-zà-ÿ]+`, nil}, {"D", `[÷0-9\x{80}]`, nil}, {"Any", `(?s).`, nil}}}
+}
+
 func vhDefString() Rules { // README-style interpolated string
 	return Rules{
 		"Root":   {{"String", `"`, Push("String")}, {"Ident", `[a-z]+`, nil}},
